@@ -2168,6 +2168,9 @@ def pathlib_path(interp, s):
 
 LIBATTR[('Path', 'parent')] = lambda interp, p: PathVal(p.s.rsplit('/', 1)[0] if '/' in p.s else '.')
 LIBATTR[('Path', 'resolve')] = lambda interp, p: (lambda i2: p)
+# the file system is not modelled: whether a path exists is an arbitrary boolean (any earlier content of the directory)
+LIBATTR[('Path', 'exists')] = lambda interp, p: (lambda i2: CTX.fresh('path_exists', 'bool'))
+LIBATTR[('Path', 'is_file')] = lambda interp, p: (lambda i2: CTX.fresh('path_is_file', 'bool'))
 LIB['builtins.str'] = (lambda old: (lambda interp, x='': x.s if isinstance(x, PathVal) else old(interp, x)))(LIB['builtins.str'])
 
 
